@@ -3,6 +3,7 @@ package checks
 import (
 	"bytes"
 	"context"
+	"crypto/tls"
 	"fmt"
 	"strings"
 
@@ -22,7 +23,7 @@ var c10limits = []int{-1, 0, 1, 2, 15, 16, 17, 100, 4095, 4096, 4097, 65536}
 
 func init() {
 	core.Register(c10{base{id: "C10", level: "exploration", quickB: 24, thoroughB: 48,
-		rule: "grid: limit L in {-1,0 (=16 MiB default),1,2,15,16,17,100,4095,4096,4097,65536} (one child process per limit so the allocation profile is attributable) x body size in {0,1,L-1,L,L+1,L+2,2L-1,2L,2L+1,3L+7,10L+1} x message type in {Q,P,B,D,E,C,H,S,d,c,f,p,unknown} x position in {first after startup, between simple queries, inside a batch, while skipping, during COPY, in place of the password, as the startup packet}; declared-only lengths {2^31-1, 2^31, 2^32-1} with little data then EOF; declared lengths 0-3 (below the minimum). Bodies <= L must be processed normally (callback sees exactly the content); bodies > L must be skipped in full and answered by exactly one ERROR/54000 ErrorResponse, after which Sync + a unique probe Query must be answered normally (detects mis-framing); startup/auth: connection ends without session. Allocation sanitizer (MemProfileRate=1): no object allocated by library code may exceed 4L+64KiB. Exhaustive product in thorough, seeded subset in quick. Non-trivial = size within 2 of a multiple of L or declared-only/sub-minimum; distinct = (L, size class, type, position).",
+		rule: "grid: limit L in {-1,0 (=16 MiB default),1,2,15,16,17,100,4095,4096,4097,65536} (one child process per limit so the allocation profile is attributable) x body size in {0,1,L-1,L,L+1,L+2,2L-1,2L,2L+1,3L+7,10L+1} x message type in {Q,P,B,D,E,C,H,S,d,c,f,p,unknown} x position in {first after startup, between simple queries, inside a batch, while skipping, during COPY, in place of the password, as the startup packet, inside an upgraded TLS connection}; declared-only lengths {2^31-1, 2^31, 2^32-1} with little data then EOF; declared lengths 0-3 (below the minimum). Bodies <= L must be processed normally (callback sees exactly the content); bodies > L must be skipped in full and answered by exactly one ERROR/54000 ErrorResponse, after which Sync + a unique probe Query must be answered normally (detects mis-framing); startup/auth: connection ends without session. Allocation sanitizer (MemProfileRate=1): no object allocated by library code may exceed 4L+64KiB. Exhaustive product in thorough, seeded subset in quick. Non-trivial = size within 2 of a multiple of L or declared-only/sub-minimum; distinct = (L, size class, type, position).",
 		need:        []string{"at_limit_processed", "over_limit_skipped", "probe_after_oversize_ok", "startup_or_auth_oversize", "sub_minimum_lengths", "declared_only_huge", "alloc_profile_checks", "copy_mode_oversize"},
 		assumptions: append([]string{"after an oversized extended-protocol message the reply may be E or E Z (C06's open reading); for declared lengths below 4 only 'no callback from that frame, no crash, no large allocation' is judged"}, commonAssumptions...)}})
 }
@@ -95,9 +96,12 @@ func (ch c10) cases(L int, thorough bool) []c10case {
 	var out []c10case
 	types := []byte("QPBDECHSdcfp") // + unknown
 	types = append(types, 'F')
-	for _, pos := range []string{"first", "between", "batch", "skipping", "copy", "password", "startup"} {
+	for _, pos := range []string{"first", "between", "batch", "skipping", "copy", "password", "startup", "tls"} {
 		for _, t := range types {
 			if (pos == "password" || pos == "startup") && t != 'p' {
+				continue
+			}
+			if pos == "tls" && t != 'Q' && t != 'P' && t != 'F' {
 				continue
 			}
 			if pos != "password" && pos != "startup" && t == 'p' {
@@ -132,6 +136,8 @@ func (ch c10) Run(c *core.Ctx) {
 	if eff <= 0 {
 		eff = 1 << 24
 	}
+	envTLS := hs.Start(hs.Parse, wire.MessageBufferSize(L), wire.TLSConfig(hs.ServerTLS()))
+	defer envTLS.Stop()
 	envPlain := hs.Start(hs.Parse, wire.MessageBufferSize(L))
 	envAuth := hs.Start(hs.Parse, wire.MessageBufferSize(L), wire.SessionAuthStrategy(wire.ClearTextPassword(c10validator)))
 	defer envPlain.Stop()
@@ -157,6 +163,10 @@ func (ch c10) Run(c *core.Ctx) {
 		if !c.Begin(i) || c.NViol() >= 10 {
 			continue
 		}
+		if k.Pos == "tls" {
+			ch.runTLS(c, envTLS, k)
+			continue
+		}
 		ch.runCase(c, envPlain, envAuth, k, i)
 		ran++
 	}
@@ -165,6 +175,80 @@ func (ch c10) Run(c *core.Ctx) {
 	c.Count("alloc_profile_checks", 1)
 	for _, b := range core.LargeLibraryObjects(bound) {
 		c.Violate("alloc", fmt.Sprintf("object of more than 4L+64KiB allocated in %s", b.Top), fmt.Sprintf("limit L=%d (effective %d): %d object(s) of %d bytes allocated under\n%s", L, eff, b.Count, b.Size, trim(b.Stack, 1500)), map[string]any{"L": L})
+	}
+}
+
+// runTLS: the limit configured for the server also holds after a TLS upgrade.
+func (ch c10) runTLS(c *core.Ctx, env *hs.Env, k c10case) {
+	if k.Eff < 64 || k.Mode != "body" || k.Size > 1<<22 {
+		return
+	}
+	cs := map[string]any{"case": k.sig()}
+	over := k.Size > int64(k.Eff)
+	var msg []byte
+	if b, ok := c10body(k.Type, int(k.Size)); ok {
+		msg = pg.Raw(k.Type, b)
+	} else if over {
+		msg = pg.Raw(k.Type, bytes.Repeat([]byte{'j'}, int(k.Size)))
+	} else {
+		return
+	}
+	probe := &hs.Prog{Stmts: []*hs.Stmt{{ID: "probe", Cols: textCols(1), Ops: []hs.Op{{K: "row", Vals: []any{"p"}}, {K: "complete", Tag: "SELECT 1"}}}}}
+	sess := &hs.Sess{Default: func(string) *hs.Prog { return probe }}
+	t, reply, err := c11upgrade(env, sess, nil, false, tls.VersionTLS13)
+	if err != nil {
+		c.Violate("tls-upgrade", "TLS upgrade failed", fmt.Sprintf("%q %v", reply, err), cs)
+		return
+	}
+	defer func() { t.tc.Close(); t.conn.CloseWrite(); t.conn.WaitClosed() }()
+	if out, _ := t.step(pg.Startup([][2]string{{"user", "u"}})); !strings.HasSuffix(replyKinds(out), "ZI") {
+		c.Violate("tls-upgrade", "startup inside TLS failed", replyKinds(out), cs)
+		return
+	}
+	evStart := len(t.conn.Events())
+	out, closed := t.step(msg)
+	got := pg.Types(mustMsgs(out))
+	c.Count("tls_position_cases", 1)
+	c.Eval(k.sig(), true)
+	if closed {
+		c.Violate("dropped", "connection dropped (tls position)", got, cs)
+		return
+	}
+	parsed := 0
+	for _, e := range t.conn.Events()[evStart:] {
+		if e.Kind == "cb" && e.Name == "parse" {
+			parsed++
+		}
+	}
+	if over {
+		if (got != "E" && got != "EZ") || parsed > 0 {
+			c.Violate("tls-limit", fmt.Sprintf("after a TLS upgrade a message above the configured limit is not rejected (type %c size %s)", k.Type, k.SizeN), fmt.Sprintf("reply %q, parser invoked %d time(s)", got, parsed), cs)
+			return
+		}
+		for _, m := range mustMsgs(out) {
+			if m.T == 'E' && m.Err['C'] != "54000" {
+				c.Violate("oversize-error", "oversized message not reported as 54000 (tls position)", fmt.Sprint(m.Err), cs)
+				return
+			}
+		}
+		c.Count("over_limit_skipped", 1)
+	} else {
+		if k.Type == 'F' || (k.Type == 'Q' && k.Size <= 1) {
+			return // unknown type / the empty query: nothing to hand to the parser
+		}
+		if parsed != 1 {
+			c.Violate("at-limit", "message of size <= L not processed after a TLS upgrade", fmt.Sprintf("reply %q", got), cs)
+			return
+		}
+		c.Count("at_limit_processed", 1)
+	}
+	t.step(pg.Sync())
+	if out, _ := t.step(pg.Query("probe-after")); pg.Types(mustMsgs(out)) != "TDCZ" {
+		c.Violate("reply", "probe query after the message not answered normally (tls position)", replyKinds(out), cs)
+		return
+	}
+	if over {
+		c.Count("probe_after_oversize_ok", 1)
 	}
 }
 
